@@ -68,7 +68,7 @@ func hp(b []byte) *HexBytes {
 var hashLens = []int{32, 48, 64}
 
 var textPool = []string{"BL", "PRoT", "ARoT", "M1", "", "1.2.3", "0.1.4", "v3.4.2-rc1",
-	"é中文", "quote\"back\\slash", "tab\tnl\n", "sha-256", "a very long description of a measured component, for good measure"}
+	"é中文", "quote\"back\\slash", "a<b>&c", "tab\tnl\n", "sha-256", "a very long description of a measured component, for good measure"}
 
 func genSw(r *Rng) SwDesc {
 	d := SwDesc{
@@ -131,7 +131,7 @@ func genValidClaims(r *Rng, prof string) ClaimsDesc {
 	inst[0] = 0x01
 	d.InstID = hp(inst)
 	if r.Chance(1, 2) {
-		d.VSI = sp([]string{"https://veraison.example/v1/challenge-response", "x", "é://v"}[r.Intn(3)])
+		d.VSI = sp([]string{"https://veraison.example/v1/challenge-response", "x", "é://v", "https://v.example/?a=1&b=<2>"}[r.Intn(4)])
 	}
 	if p1 {
 		d.BootSeed = hp(r.Bytes(32))
@@ -295,6 +295,13 @@ func applyDefect(r *Rng, d *ClaimsDesc, defect string) bool {
 			return false
 		}
 		d.Sw[r.Intn(len(d.Sw))].Signer = hp(r.Bytes(badLen(r, 32, 48, 64)))
+	case "bad-extra":
+		// valid under the base profile's rules, invalid under the extension's own Validate()
+		if d.Prof != "xp1" && d.Prof != "xp2" {
+			return false
+		}
+		x := int64(-1 - r.Intn(1000))
+		d.Extra = &x
 	case "wrong-profile":
 		if p1 {
 			d.ProfClaim = sp([]string{"PSA_IOT_PROFILE_2", psatoken.Profile2Name, ""}[r.Intn(3)])
@@ -311,7 +318,7 @@ func applyDefect(r *Rng, d *ClaimsDesc, defect string) bool {
 var allDefects = []string{"no-clientid", "no-lifecycle", "no-implid", "no-nonce", "no-instid", "no-bootseed",
 	"no-profile", "bad-lifecycle", "bad-implid", "bad-bootseed", "bad-nonce", "two-nonces", "bad-instid-len",
 	"bad-instid-type", "bad-certref", "empty-vsi", "no-sw", "sw-and-nomeas", "sw-no-mval", "sw-no-signer",
-	"sw-bad-mval", "sw-bad-signer", "wrong-profile"}
+	"sw-bad-mval", "sw-bad-signer", "wrong-profile", "bad-extra", "bad-extra"}
 
 func genInvalidClaims(r *Rng, prof string) ClaimsDesc {
 	d := genValidClaims(r, prof)
